@@ -37,7 +37,7 @@ def main(ctx):
     res = ctx.path("res.ndjson")
     ctx.harness(["replay", "C04", "--cases", cases, "--out", res], timeout=1500)
     summ = ctx.add_results(res)
-    if summ["checked"] != len(allcases):
+    if summ["checked"] != len(allcases) and not summ.get("aborted_after_failures"):
         raise vlib.Inconclusive("replayed %d of %d cases" % (summ["checked"], len(allcases)))
     for need in ("json/reordered/empties", "csv/reordered/empties", "fasta/reordered/noempty", "fastq/inorder/noempty"):
         ctx.expect_vacuity("class " + need, ctx.classes.get(need, 0))
